@@ -40,15 +40,50 @@ def table(repo):
     return [(a, c) for a, b, c in rows]
 
 
-def lean_file(rows):
+def position_uses(repo):
+    """every use of the ballot list that could depend on a ballot's *position*: subscripts `E.ballots[...]`, `enumerate(E.ballots)`, `zip(..E.ballots..)`,
+    `sorted(E.ballots...)`, `reversed(E.ballots)`, `E.ballots.sort/.reverse/.index/.pop/.insert`, `len(E.ballots)`, over droop/rules/*.py and droop/election.py
+    (Election.__init__ only appends).  The unchanged package has none: the rules only ever iterate over the list."""
+    import glob
+    uses = []
+    files = sorted(glob.glob(os.path.join(repo, 'droop', 'rules', '*.py'))) + [os.path.join(repo, 'droop', 'election.py')]
+    names = ('E.ballots', 'E.ballotsEqual', 'self.ballots', 'self.ballotsEqual', 'self.E.ballots')
+    for path in files:
+        rel = os.path.relpath(path, os.path.join(repo, 'droop'))
+        tree = ast.parse(open(path).read(), path)
+        for n in ast.walk(tree):
+            if isinstance(n, ast.Subscript) and ast.unparse(n.value) in names:
+                uses.append((rel, ast.unparse(n)[:60]))
+            if isinstance(n, ast.Call):
+                f = ast.unparse(n.func)
+                if f in ('enumerate', 'zip', 'sorted', 'reversed', 'len', 'list', 'tuple') and any(ast.unparse(a) in names for a in n.args):
+                    uses.append((rel, ast.unparse(n)[:60]))
+                if isinstance(n.func, ast.Attribute) and ast.unparse(n.func.value) in names and n.func.attr in ('sort', 'reverse', 'index', 'pop', 'insert', 'remove'):
+                    uses.append((rel, ast.unparse(n)[:60]))
+    for u in uses:
+        if '"' in u[1] or '\\' in u[1]:
+            raise TranslationError('text not accepted: %s' % u[1])
+    return sorted(set(uses))
+
+
+def tables(repo):
+    return dict(moves=table(repo), position=position_uses(repo))
+
+
+def lean_file(t):
+    if isinstance(t, list):
+        t = dict(moves=t, position=[])
     lines = ['import Props.C06Moves', 'namespace Gen', 'open Droop Droop.C06', '']
-    lines.append('def moveTable : List (String × String) := [%s]' % ', '.join('("%s", "%s")' % r for r in rows))
+    lines.append('def moveTable : List (String × String) := [%s]' % ', '.join('("%s", "%s")' % r for r in t['moves']))
     lines.append('theorem moveTable_is_committed : moveTable = C06.moveTable := by rfl')
     lines.append('#print axioms moveTable_is_committed')
+    lines.append('def ballotPositionUses : List (String × String) := [%s]' % ', '.join('("%s", "%s")' % r for r in t['position']))
+    lines.append('theorem ballotPositionUses_is_committed : ballotPositionUses = C06.ballotPositionUses := by rfl')
+    lines.append('#print axioms ballotPositionUses_is_committed')
     lines.append('end Gen')
     return '\n'.join(lines) + '\n'
 
 
 if __name__ == '__main__':
     repo, outp = sys.argv[1], sys.argv[2]
-    open(outp, 'w').write(lean_file(table(repo)))
+    open(outp, 'w').write(lean_file(tables(repo)))
